@@ -1652,6 +1652,8 @@ impl<'a> Ctx<'a> {
                         range: argument.range,
                     });
 
+                    // the argument is only visible in the body of this arm
+                    self.create_new_child_scope();
                     self.insert_into_current_scope(argument.name.0, Local::SwitchArm(switch_local));
 
                     Some(switch_local)
@@ -1660,6 +1662,10 @@ impl<'a> Ctx<'a> {
                 };
 
                 let body = self.lower_expr(arm.body(self.tree));
+
+                if switch_local.is_some() {
+                    self.destroy_current_scope();
+                }
 
                 let arm = SwitchArm {
                     variant,
